@@ -82,6 +82,7 @@ def run(ctx: Ctx):
     # the single-atom move restores every bond it touches: traversal discipline and pull length (C07/R7.2, R7.3, R7.5)
     c07.r7_2_3(ctx, ctx.func("move_mol_atom"))
     c07.r7_5(ctx, ctx.func("move_mol_atom"))
+    c07.r7_6(ctx, ctx.func("move_mol_atom"), ctx.func("find_atom_random_displ"))
     # rotations are rigid: the rotation-matrix rules of C17 (axis normalised, closed form orthogonal with det +1)
     from . import rotmat
     rotmat.rules(ctx)
